@@ -324,6 +324,10 @@ def ref_line(state, line):
             return ref_num(t[1], [int(t[2]), dec(t[3])])
         if t[1] == "port":
             return None
+        if t[1] == "status":
+            # htp_parse_status: the decimal value (LWS around it allowed) when it lies in 100..999, else HTP_STATUS_INVALID (-1)
+            r = ref_ppiw(dec(t[2]), 10)
+            return str(r if 100 <= r <= 999 else -1)
         return ref_num(t[1], [dec(t[2])])
     if t[0] == "fn" and t[1] == "hostport":
         # htp_parse_port (static) through htp_parse_hostport on "h:<port text>": exact arithmetic, no wrap at any width.
@@ -560,6 +564,7 @@ def num_lines(ctx):
         lines.append("num cl %s" % h)
         lines.append("num chunked %s" % h)
         lines.append("num port %s" % h)
+        lines.append("num status %s" % h)
         if s and all(ch in "0123456789" for ch in s):
             lines.append("fn hostport " + hx(list(("h:" + s).encode("latin1"))))
             lines.append("fn hostport " + hx(list(("h: " + s + "\t").encode("latin1"))))
@@ -579,6 +584,9 @@ def num_lines(ctx):
                 lines.append("num cl %s" % hs)
                 lines.append("num ppiw 10 %s" % hs)
                 lines.append("num chunked " + hx(list(("%x" % v).encode("latin1"))))
+    for v in (0, 1, 99, 100, 101, 199, 200, 404, 599, 998, 999, 1000, 1001, 9999, 2 ** 31 + 200, 2 ** 32 + 200, 2 ** 63, 2 ** 64 + 200):
+        for fmt in ("%d", " %d", "%d ", "0%d", "%d.", "%dx"):
+            lines.append("num status " + hx(list((fmt % v).encode("latin1"))))
     nr = 20000 if ctx.tier == "quick" else 300000
     al = b"0123456789abcdefABCDEFgz \t;\r\n\x00xX-+"
     for _ in range(nr):
